@@ -64,6 +64,22 @@ def from_token(v):
     return walk(v)
 
 
+def _direct_closers(F):
+    """the functions whose own code sets a state's `is_closed` flag - the close transition under whatever name
+    (`shutdown(discard)`); a call of one of them on a path is a close on that path (it either closes or finds the
+    channel closed already)"""
+    got = getattr(F, '_c11_closers', None)
+    if got is None:
+        got = set()
+        for fn in F.raw['fns']:
+            for b in fn['blocks']:
+                for st in b['stmts']:
+                    if st['k'] == 'assign' and any(isinstance(x, dict) and x.get('f') == 'is_closed' for x in st['place']['p']):
+                        got.add(fn['path'])
+        F._c11_closers = got
+    return got
+
+
 def run(C, R):
     R.explanation = ('R1 the closed/fulfilled flag is only ever written `true` (monotone); R2 close(): the already-'
                      'closed path has no effect and returns AlreadyClosed, the newly-closed path sets the flag, '
@@ -313,7 +329,8 @@ def run(C, R):
                     continue
                 own_frame = path.events[0]['frame'] if path.events else None
                 # a close called by the destructor itself: the public wrapper or, under its own lock, the state's
-                closes = [e for e in path.events if e['k'] == 'call' and e['name'] == 'close' and e['mode'] == 'inline'][:1]
+                closes = [e for e in path.events if e['k'] == 'call' and e['mode'] == 'inline'
+                          and (e['name'] == 'close' or e['callee'] in _direct_closers(F))][:1]
                 subs = [e for e in path.events if e['k'] == 'call' and e['name'] == 'fetch_sub']
                 for e in subs:
                     counter_users.add(dropfn['path'])
@@ -502,7 +519,8 @@ def run(C, R):
                 last = any(const_of(E, path.facts, e['ret']) == 1 for e in subs)
                 if not last:
                     continue
-                closes = [e for e in path.events if e['k'] == 'call' and e['name'] == 'close' and e.get('mode') == 'inline']
+                closes = [e for e in path.events if e['k'] == 'call' and e.get('mode') == 'inline'
+                          and (e['name'] == 'close' or e['callee'] in _direct_closers(F))]
                 gone = set()
                 for e in path.events:
                     if e['k'] == 'call' and e['name'] == 'load' and const_of(E, path.facts, e['ret']) == 0 \
